@@ -11,6 +11,7 @@ import QipVerif.Model.Grid
 * `step tl=<g> cs=<g> t=r`                        → `ok v`
 * `header inctime=0|1 labels=<codes>;<codes>…`    → `ok <codes>`   (codes: `.`-separated code points)
 * `read inctime=0|1 line=<codes>`                 → `ok <codes>;<codes>…`
+* `splinedeg n=N`                                   → `ok d` | `none`
 * `readshape inctime=0|1 rows=R n=N`              → `ok len,len,…` (`x` = not an array)
 -/
 open QipVerif QipVerif.Proto QipVerif.RatProto QipVerif.Grid
@@ -77,6 +78,12 @@ def step (line : String) : String :=
     match fNat? fs "inctime", (fStr? fs "line").bind codes? with
     | some it, some line => "ok " ++ ";".intercalate ((readLabels 59 (it = 1) line).map showCodes)
     | _, _ => "bad-op"
+  | some "splinedeg" =>
+    match fNat? fs "n" with
+    | some n => match splineDegree n with
+      | some d => "ok " ++ toString d
+      | none => "none"
+    | none => "bad-op"
   | some "readshape" =>
     match fNat? fs "inctime", fNat? fs "rows", fNat? fs "n" with
     | some it, some rows, some n =>
